@@ -354,6 +354,26 @@ pub fn o08(dir: &str, thorough: bool, seed: u64) {
                         &format!("{} k={} [{kind}] {base_f}  ~>  {f}", xg.name, xg.k));
                 }
             }
+            // every spelling of the two constants, in a few fixed contexts
+            {
+                let a0 = xg.var_names[0].clone();
+                let mut templates = vec![format!("{a0} | C"), format!("~{a0} & (C => {a0})"), format!("EF (C) | AG ({a0} ^ C)")];
+                if xg.k >= 1 {
+                    templates.push(format!("!{{x}}: AG EF ({{x}} | C)"));
+                }
+                for tpl in templates {
+                    for group in [["true", "True", "1"], ["false", "False", "0"]] {
+                        let base = run_rec(&mut out, &xg, "plain_dirty", &[tpl.replace("C", group[0])], &Ctx::new());
+                        for sp in &group[1..] {
+                            let f = tpl.replace("C", sp);
+                            let r = run_rec(&mut out, &xg, "plain_dirty", &[f.clone()], &Ctx::new());
+                            out.count("constant_spelling");
+                            out.oracle(r == base && base.starts_with("ok"), "C08", "result depends on the spelling of a constant",
+                                &format!("{} k={} {}  ~>  {f}", xg.name, xg.k, tpl.replace("C", group[0])));
+                        }
+                    }
+                }
+            }
         }
     }
     out.finish();
